@@ -11,7 +11,7 @@
  * With dither=1 the output conversion dithers with the shared p->seed (second unsynchronised read-modify-write of the same
  * regions); outdiff then counts output samples that depend on the thread interleaving.
  *
- * usage: clips <nch> <omp threads> <blocks> <blocklen> <reps> <dither 0|1> <irate> <orate> <recipe>
+ * usage: clips <nch> <omp threads> <blocks> <blocklen> <reps> <dither 0|1> <irate> <orate> <recipe> [same 0|1]
  */
 #include <stdio.h>
 #include <stdlib.h>
@@ -22,10 +22,13 @@
 
 #define MAXCH 64
 
+static int opt_same;
 static float *make_in(int ch, int nch, size_t n)
 {
   float *x = malloc(sizeof(float) * n); size_t i; unsigned s = 777u + (unsigned)ch * 131u;
-  size_t loud = n * (size_t)(ch + 1) / (size_t)nch;          /* channel ch is over full scale on its first (ch+1)/nch part */
+  size_t loud = opt_same ? n - (size_t)ch : n * (size_t)(ch + 1) / (size_t)nch;  /* channel ch is over full scale on its first (ch+1)/nch part
+                                                                                   * (same=1: on all but its last ch samples, so that the channels
+                                                                                   * do equal work and reach the counter update together) */
   for (i = 0; i < n; ++i) {
     s = s * 1664525u + 1013904223u;
     double v = sin(i * (0.05 + 0.01 * ch)) + 0.2 * ((double)(s >> 8) / (1 << 24) - .5);
@@ -69,6 +72,7 @@ int main(int argc, char **argv)
   if (argc < 10) { fprintf(stderr, "usage: clips nch omp blocks blocklen reps dither irate orate recipe\n"); return 2; }
   nch = atoi(argv[1]); omp_t = atoi(argv[2]); blocks = atoi(argv[3]); blen = (size_t)atol(argv[4]); reps = atoi(argv[5]);
   dither = atoi(argv[6]); irate = atof(argv[7]); orate = atof(argv[8]); recipe = strtoul(argv[9], 0, 10);
+  opt_same = argc > 10 ? atoi(argv[10]) : 0;
   if (nch < 1 || nch > MAXCH || blocks < 1 || blen < 1) return 2;
   n = (size_t)blocks * blen; ocap = (size_t)(n * orate / irate) + 4096;
   for (c = 0; c < nch; ++c) { in[c] = make_in(c, nch, n); o_par[c] = calloc(ocap, sizeof(short)); o_seq[c] = calloc(ocap, sizeof(short)); }
